@@ -10,6 +10,7 @@ import (
 	"time"
 
 	pb "github.com/AliceO2Group/Control/core/protos"
+	occpb "github.com/AliceO2Group/Control/executor/protos"
 	mesos "github.com/mesos/mesos-go/api/v1/lib"
 	"pgregory.net/rapid"
 
@@ -35,6 +36,9 @@ type Step struct {
 }
 
 type Case struct {
+	// DevErr[i] = k > 0: 60 ms before step i the device of task k-1 goes to ERROR by itself (TASK_INTERNAL_ERROR device event): the task
+	// stays alive, is still a target of the command and refuses it (its outcome is forced to err-error)
+	DevErr   []int
 	Tasks    []TaskSpec
 	CallOnly bool // a workflow without any task (only a call role): nothing to command
 	Steps    []Step
@@ -353,9 +357,32 @@ func run(c Case) (res vh.Result) {
 		if tr.src != state {
 			continue // generator keeps histories legal; skip anything else
 		}
-		setOutcomes(func(i int) string { return s.Outcomes[i%len(s.Outcomes)] })
 		get := func(i int) string { return s.Outcomes[i%len(s.Outcomes)] }
+		devErr := -1
+		if si < len(c.DevErr) && c.DevErr[si] > 0 && len(c.Tasks) > 0 {
+			if k := (c.DevErr[si] - 1) % len(c.Tasks); alive[k] {
+				devErr = k
+				inner := get
+				get = func(i int) string {
+					if i == k {
+						return "err-error"
+					}
+					return inner(i)
+				}
+			}
+		}
+		setOutcomes(get)
 		want := critOK(get, alive)
+		if devErr >= 0 {
+			for _, t := range w.Master.Tasks() {
+				if simworld.ClassOf(t) == classOf[devErr] && !t.Terminal {
+					w.Master.SendDeviceEvent(t.ID, occpb.DeviceEventType_TASK_INTERNAL_ERROR, nil)
+				}
+			}
+			res.Classes = append(res.Classes, "device-error-just-before-the-request")
+			hist = append(hist, fmt.Sprintf("device of t%d announces TASK_INTERNAL_ERROR", devErr))
+			time.Sleep(60 * time.Millisecond)
+		}
 		budget := 25 * time.Second
 		for i := range c.Tasks {
 			if alive[i] && slow(get(i)) {
@@ -563,6 +590,11 @@ func gen(t *rapid.T) Case {
 			}
 		}
 		c.Steps = append(c.Steps, s)
+		de := 0
+		if !slowShard() && n > 0 && rapid.IntRange(0, 7).Draw(t, "deviceError") == 0 {
+			de = rapid.IntRange(1, n).Draw(t, "deviceErrorTask")
+		}
+		c.DevErr = append(c.DevErr, de)
 		state = trans[op].dst
 	}
 	return c
@@ -599,6 +631,8 @@ func TestFixed(t *testing.T) {
 		vh.Fixed(t, prop, fmt.Sprintf("same-host-critical-and-noncritical-fail-%d", i), Case{Tasks: []TaskSpec{{0, false, "direct", "ok", "ok"}, {0, true, "direct", "ok", "ok"}, {0, false, "basic", "ok", "ok"}, {1, true, "direct", "ok", "ok"}},
 			Steps: []Step{{op, []string{"err-src", "err-error", "err-src", "ok"}}}}, vh.Confirmed(run))
 	}
+	vh.Fixed(t, prop, "critical-device-goes-to-error-just-before-start", Case{DevErr: []int{2}, Tasks: []TaskSpec{{0, true, "direct", "ok", "ok"}, {1, true, "direct", "ok", "ok"}},
+		Steps: []Step{{"START_ACTIVITY", ok(2)}}}, vh.Confirmed(run))
 	vh.Fixed(t, prop, "foreign-executor-claims-success-for-a-critical-task", Case{Tasks: []TaskSpec{{0, true, "direct", "ok", "ok"}, {1, true, "direct", "ok", "ok"}},
 		Steps: []Step{{"START_ACTIVITY", []string{"err-impostor", "ok"}}}}, vh.Confirmed(run))
 	vh.Fixed(t, prop, "nothing-to-command-walk", Case{CallOnly: true, Tasks: nil, Steps: []Step{{"START_ACTIVITY", []string{"ok"}}, {"STOP_ACTIVITY", []string{"ok"}}, {"RESET", []string{"ok"}}, {"CONFIGURE", []string{"ok"}}}}, vh.Confirmed(run))
